@@ -50,9 +50,6 @@ const c25SrvRule = "generated peer configurations (iBGP/eBGP, add-path) and hist
 // replacement is serialised against route changes (excluded by construction).
 const c25SrvInvSig = "C25/deadlock:routingtable/adjRIBOut.(*AdjRIBOut).AddPath|routingtable/locRIB.(*LocRIB).RefreshClient"
 
-// experiment switch (development only): let DisposePeer race with an incoming connection of the same peer
-var c25NoConMu = os.Getenv("C25_NOCONMU") != ""
-
 var (
 	c25SrvWatchLimit = 10 * time.Second
 	c25SrvWatchGap   = 2 * time.Second
@@ -162,10 +159,10 @@ func (c *c25Conn) SetWriteDeadline(time.Time) error { return nil }
 
 type c25LM struct{ ch chan tcp.ConnWithVRF }
 
-func (l *c25LM) ListenAddrsPerVRF(*vrf.VRF) []string          { return nil }
-func (l *c25LM) GetListeners(*vrf.VRF) []tcp.ListenerI        { return nil }
-func (l *c25LM) CreateListenersIfNotExists(v *vrf.VRF) error  { return nil }
-func (l *c25LM) AcceptCh() chan tcp.ConnWithVRF               { return l.ch }
+func (l *c25LM) ListenAddrsPerVRF(*vrf.VRF) []string         { return nil }
+func (l *c25LM) GetListeners(*vrf.VRF) []tcp.ListenerI       { return nil }
+func (l *c25LM) CreateListenersIfNotExists(v *vrf.VRF) error { return nil }
+func (l *c25LM) AcceptCh() chan tcp.ConnWithVRF              { return l.ch }
 
 // ---------------------------------------------------------------------------
 // rig
@@ -206,7 +203,7 @@ type c25SrvRig struct {
 	v        *vrf.VRF
 	remotes  [2]*c25Remote
 	present  [2]atomic.Bool
-	guardInv bool
+	guardInv bool // serialise export policy replacement against route changes (listed finding c25SrvInvSig)
 	h        sync.RWMutex
 	directMu sync.Mutex
 	direct   map[int]*route.Path
@@ -284,8 +281,11 @@ func (r *c25SrvRig) peerConfig(i int) PeerConfig {
 	}
 }
 
-func c25NewSrvRig(cfg c25SrvCfg) *c25SrvRig {
-	r := &c25SrvRig{cfg: cfg, guardInv: kit.IsKnown(c25SrvInvSig), direct: map[int]*route.Path{}}
+// c25NewSrvRig builds the server. noExport: the history contains no ReplaceExportFilterChain, so the listed
+// lock-order inversion cannot occur and no guard (harness serialisation) is needed: DisposePeer/AddPeer then race
+// freely with incoming connections and session events.
+func c25NewSrvRig(cfg c25SrvCfg, noExport bool) *c25SrvRig {
+	r := &c25SrvRig{cfg: cfg, guardInv: kit.IsKnown(c25SrvInvSig) && !noExport, direct: map[int]*route.Path{}}
 	r.v = vrf.NewUntrackedVRF("c25srv", 0)
 	r.v.CreateIPv4UnicastLocRIB("inet.0")
 	r.v.CreateIPv6UnicastLocRIB("inet6.0")
@@ -328,10 +328,18 @@ func c25ReadMsg(c *c25Conn) (uint8, error) {
 
 // connect opens a new connection to the server and runs the handshake.
 func (r *c25SrvRig) connect(rm *c25Remote) bool {
-	if !c25NoConMu {
-		rm.conMu.Lock()
-		defer rm.conMu.Unlock()
+	// conMu: DisposePeer/AddPeer of this peer are not issued between the accept of a connection and the moment
+	// its FSM has taken the connection over (the server's OPEN arrives). In that window a ManualStop makes
+	// activeState.manualStop() close a nil conn (daemon crash, outside C25's oracle; see notes/C25.md).
+	rm.conMu.Lock()
+	locked := true
+	unlock := func() {
+		if locked {
+			locked = false
+			rm.conMu.Unlock()
+		}
 	}
+	defer unlock()
 	srvSide, remSide := c25Pipe("172.16.0.1:179", fmt.Sprintf("%s:%d", rm.addr.String(), 40000+rm.idx))
 	s := &c25Session{remote: remSide, srv: srvSide, eof: make(chan struct{})}
 	rm.mu.Lock()
@@ -346,6 +354,7 @@ func (r *c25SrvRig) connect(rm *c25Remote) bool {
 	if t, err := c25ReadMsg(remSide); err != nil || t != packet.OpenMsg {
 		return fail()
 	}
+	unlock()
 	caps := packet.Capabilities{
 		{Code: packet.ASN4CapabilityCode, Value: packet.ASN4Capability{ASN4: rm.asn}},
 	}
@@ -668,7 +677,7 @@ func (r *c25SrvRig) exec(op c25SrvOp) string {
 			}
 			did = true
 			r.srv.DisposePeer(r.v, pip)
-			if r.guardInv && !c25NoConMu {
+			if r.guardInv {
 				// the FSMs tear their sessions down asynchronously (route withdrawals): wait for it while
 				// export policy changes are still excluded
 				rm.mu.Lock()
@@ -763,7 +772,7 @@ func TestVerifC25ServerSequential(t *testing.T) {
 		}
 		c.Logf("cfg %s", cfg)
 		c.Logf("ops %s", c25SrvOpsString(ops))
-		rig := c25NewSrvRig(cfg)
+		rig := c25NewSrvRig(cfg, false)
 		established, interesting := false, false
 		for i, op := range ops {
 			var class string
@@ -803,6 +812,7 @@ func c25SrvRound(t *testing.T, rec *kit.Recorder, s c25SrvSrc, label string) boo
 	c := rec.Case()
 	defer c.Done()
 	cfg := c25SrvGenCfg(s)
+	noExport := kit.IsKnown(c25SrvInvSig) && s.Intn(2) == 0
 	workers := 2 + s.Intn(7)
 	if workers < 3 {
 		workers = 3
@@ -817,18 +827,24 @@ func c25SrvRound(t *testing.T, rec *kit.Recorder, s c25SrvSrc, label string) boo
 				op.peer = g
 				lists[g][i] = op
 			} else {
-				lists[g][i] = c25SrvGenOp(s, 2)
+				op := c25SrvGenOp(s, 2)
+				if noExport && op.kind == c25ARFCExport {
+					op.kind = c25ARFCImport
+				}
+				lists[g][i] = op
 			}
 		}
 	}
-	c.Logf("%s cfg %s", label, cfg)
+	c.Logf("%s cfg %s noExport=%v", label, cfg, noExport)
 	for g := range lists {
 		c.Logf("w%d %s", g, c25SrvOpsString(lists[g]))
 	}
-	rig := c25NewSrvRig(cfg)
-	if rig.guardInv {
+	rig := c25NewSrvRig(cfg, noExport)
+	if rig.guardInv || noExport {
 		rec.Excluded(c25SrvInvSig)
 	}
+	c.ClassIf(noExport, "unguarded_no_export_policy")
+	c.ClassIf(!noExport, "with_export_policy")
 	classes := make([]map[string]struct{}, workers)
 	start := make(chan struct{})
 	dones := make([]<-chan struct{}, workers)
@@ -847,7 +863,7 @@ func c25SrvRound(t *testing.T, rec *kit.Recorder, s c25SrvSrc, label string) boo
 	close(start)
 	what := func() string {
 		var sb strings.Builder
-		fmt.Fprintf(&sb, "%s cfg %s\n", label, cfg)
+		fmt.Fprintf(&sb, "%s cfg %s noExport=%v\n", label, cfg, noExport)
 		for g := range lists {
 			fmt.Fprintf(&sb, "  w%d: %s\n", g, c25SrvOpsString(lists[g]))
 		}
